@@ -60,6 +60,22 @@ class NetConfig:
             return self.base_latency
         if self.latency == 'uniform':
             return self.rng.uniform(0.0, 0.010)
+        if self.latency == 'outage':
+            # mostly milliseconds; now and then the path goes silent for a long time (a
+            # retransmission back-off, a congested or flapping link): tens of seconds to minutes
+            # between two pieces, possibly of the same message
+            r = self.rng.random()
+            if r < 0.97:
+                return self.rng.uniform(0.0, 0.005)
+            d = self.rng.uniform(10.0, 300.0)
+            s = current_sim()
+            if s is not None:
+                # an injected fault like a stall: liveness budgets run from the end of the last
+                # fault, and the silence does not count against the simulated-time budget
+                s.count_fault('net.outage')
+                s.fault_time += d
+                s.schedule(d, s._mark_fault, 'outage.end')
+            return d
         # heavy tail: mostly ms, sometimes seconds
         r = self.rng.random()
         if r < 0.9:
